@@ -281,6 +281,39 @@ def same(a, b, limit=6) -> bool:
         signal.alarm(0)
 
 
+def numeric_equal(a, b, limit=8):
+    """Values of two expressions at 3 rational points, 30-digit arithmetic.  None = cannot decide."""
+    import signal
+
+    import numpy as np
+
+    syms = sorted((a.free_symbols | b.free_symbols), key=str)
+    rng = np.random.default_rng(11)
+
+    def _al(*_):
+        raise Undecided
+
+    signal.signal(signal.SIGALRM, _al)
+    signal.alarm(limit)
+    try:
+        for _ in range(3):
+            pt = {s: sp.Rational(int(rng.integers(11, 97)), int(rng.integers(7, 23))) for s in syms}
+            x = complex(a.xreplace(pt).doit().evalf(30))
+            y = complex(b.xreplace(pt).doit().evalf(30))
+            if not (np.isfinite(x) and np.isfinite(y)):
+                return None
+            # both sides are the same function evaluated with 30 digits: only rounding remains
+            if abs(x - y) > 1e-9 * max(1.0, abs(x)):
+                return False
+        return True
+    except Undecided:
+        return None
+    except Exception:  # noqa: BLE001
+        return None
+    finally:
+        signal.alarm(0)
+
+
 def canon_dummies(e):
     """evaluate() creates a fresh Dummy (bound summation index) on every call, so two unfoldings of
     the same expression are never `==`.  Compare modulo the identity of Dummies: every Dummy is renamed
